@@ -209,10 +209,11 @@ class SArr(_nd):
     # ---- conversions -----------------------------------------------------------------------
     def astype(self, dt, *a, **k):
         dt = _np.dtype(dt)
-        return SArr(_raw(self), dt)
+        r = SArr(_raw(self), dt)
+        return r.view(type(self)) if type(self) is not SArr else r
 
     def copy(self, order='C'):
-        r = _nd.copy(_raw(self), order=order).view(SArr)
+        r = _nd.copy(_raw(self), order=order).view(type(self))
         r.ldtype = self.ldtype
         return r
 
@@ -303,6 +304,14 @@ class SArr(_nd):
         idx, sym = _norm_index(idx)
         if not sym:
             val = _unlazy(val)
+            if self.ldtype is not None and self.ldtype.kind != 'O' and isinstance(val, (_nd, list, tuple)) and _np.ndim(val) > 0:
+                # NumPy refuses to store a sequence in ONE cell of a numeric array; the object cells underneath would take it
+                try:
+                    single = _np.ndim(_np.empty(self.shape, dtype=bool)[idx]) == 0
+                except Exception:
+                    single = False
+                if single:
+                    raise ValueError('setting an array element with a sequence.')
             _nd.__setitem__(_raw(self), idx, _coerce_value(val, self.ldtype))
             return
         _sym_setitem(self, idx, val)
@@ -425,6 +434,114 @@ def _coerce_value(val, dt):
             raise
         return _raw(SArr(val, dt, shape))
     return coerce(val, dt)
+
+
+class SymMatrix(SArr):
+    """np.matrix semantics on top of SArr (what scipy.sparse's todense() / sum(axis) / ndarray-sparse arithmetic return):
+    always 2-D, indexing with one integer gives a (1, n) matrix, `*` is the matrix product, reductions keep two dimensions,
+    and the class propagates through element-wise arithmetic."""
+    __array_priority__ = 10.0
+
+    def __array_finalize__(self, obj):
+        SArr.__array_finalize__(self, obj)
+
+    def __getitem__(self, index):
+        out = SArr.__getitem__(self, index)
+        if not isinstance(out, _nd):
+            return out
+        if out.ndim == 0:
+            return _raw(out)[()]
+        if out.ndim == 1:
+            sh = out.shape[0]
+            try:
+                n = len(index)
+            except Exception:
+                n = 0
+            r = out.view(SymMatrix)
+            r.ldtype = out.ldtype if isinstance(out, SArr) else self.ldtype
+            if n > 1 and isinstance(index[1], (int, _np.integer)):
+                return r.reshape((sh, 1))
+            return r.reshape((1, sh))
+        if isinstance(out, SArr) and not isinstance(out, SymMatrix):
+            r = out.view(SymMatrix)
+            r.ldtype = out.ldtype
+            return r
+        return out
+
+    def reshape(self, *shape, **kw):
+        r = SArr.reshape(self, *shape, **kw)
+        if isinstance(r, SArr) and r.ndim == 2 and not isinstance(r, SymMatrix):
+            r2 = r.view(SymMatrix)
+            r2.ldtype = r.ldtype
+            return r2
+        return r
+
+    def _collapse(self, r, axis):
+        if axis is None:
+            return r
+        r = r if isinstance(r, SArr) else SArr.from_typed(_np.asarray(r))
+        n, m = self.shape
+        r = r.reshape((1, m) if axis in (0, -2) else (n, 1))
+        r2 = r.view(SymMatrix)
+        r2.ldtype = r.ldtype
+        return r2
+
+    def sum(self, axis=None, *a, **k): return self._collapse(SArr.sum(self.view_plain(), axis, *a, **k), axis)
+    def max(self, axis=None, *a, **k): return self._collapse(SArr.max(self.view_plain(), axis, *a, **k), axis)
+    def min(self, axis=None, *a, **k): return self._collapse(SArr.min(self.view_plain(), axis, *a, **k), axis)
+    def mean(self, axis=None, *a, **k): return self._collapse(SArr.mean(self.view_plain(), axis, *a, **k), axis)
+
+    def view_plain(self):
+        r = self.view(SArr)
+        r.ldtype = self.ldtype
+        return r
+
+    @property
+    def A(self):
+        return self.view_plain()
+
+    @property
+    def A1(self):
+        return self.view_plain().reshape(-1)
+
+    def flatten(self, order='C'):
+        r = self.view_plain().reshape(-1).copy().reshape((1, -1)).view(SymMatrix)
+        r.ldtype = self.ldtype
+        return r
+
+    def __mul__(self, other):
+        if isinstance(other, (_nd, list, tuple)):
+            from . import funcs
+            r = funcs.np_dot(self.view_plain(), funcs._as_sarr(other))
+            if isinstance(r, SArr) and r.ndim == 2:
+                r2 = r.view(SymMatrix)
+                r2.ldtype = r.ldtype
+                return r2
+            return r
+        return SArr.__mul__(self, other)
+
+    def __rmul__(self, other):
+        if isinstance(other, (_nd, list, tuple)):
+            from . import funcs
+            r = funcs.np_dot(funcs._as_sarr(other), self.view_plain())
+            if isinstance(r, SArr) and r.ndim == 2:
+                r2 = r.view(SymMatrix)
+                r2.ldtype = r.ldtype
+                return r2
+            return r
+        return SArr.__rmul__(self, other)
+
+    def __pow__(self, other):
+        raise Unsupported('matrix power')
+
+
+def as_matrix(a):
+    """2-D SArr -> SymMatrix sharing the cells"""
+    if a.ndim == 1:
+        a = a.reshape(1, -1)
+    r = a.view(SymMatrix)
+    r.ldtype = a.ldtype
+    return r
 
 
 class LazyMasked:
